@@ -9,6 +9,8 @@
 extern crate rustc_abi;
 extern crate rustc_driver;
 extern crate rustc_hir;
+extern crate rustc_infer;
+extern crate rustc_trait_selection;
 extern crate rustc_interface;
 extern crate rustc_middle;
 extern crate rustc_session;
@@ -30,6 +32,8 @@ macro_rules! pp {
 }
 use rustc_middle::ty::{self, GenericArgsRef, Instance, Ty, TyCtxt, TypingEnv};
 use rustc_span::Span;
+use rustc_infer::infer::TyCtxtInferExt;
+use rustc_trait_selection::infer::InferCtxtExt;
 use std::collections::BTreeMap;
 use std::fmt::Write as _;
 
@@ -725,9 +729,18 @@ impl Callbacks for Cb {
                         let discr = if adt.is_enum() { format!("{}", adt.discriminant_for_variant(tcx, vi).val) } else { "null".into() };
                         variants.push(format!("{{\"name\":{},\"idx\":{},\"discr\":{},\"fields\":{}}}", esc(v.name.as_str()), vi.as_u32(), discr, jlist(fields)));
                     }
+                    let (send, sync) = if !generic {
+                        let infcx = tcx.infer_ctxt().build(ty::TypingMode::PostAnalysis);
+                        let pe = typing_env.param_env;
+                        let send = tcx.get_diagnostic_item(rustc_span::sym::Send).map(|d| infcx.type_implements_trait(d, [ty], pe).must_apply_modulo_regions());
+                        let sync = tcx.lang_items().sync_trait().map(|d| infcx.type_implements_trait(d, [ty], pe).must_apply_modulo_regions());
+                        (send, sync)
+                    } else {
+                        (None, None)
+                    };
                     let o = |x: Option<bool>| match x { Some(b) => format!("{}", b), None => "null".into() };
                     adts.push(format!(
-                        "{{\"path\":{},\"kind\":{},\"vis\":{},\"generic\":{},\"size\":{},\"freeze\":{},\"copy\":{},\"span\":{},\"variants\":{}}}",
+                        "{{\"path\":{},\"kind\":{},\"vis\":{},\"generic\":{},\"size\":{},\"freeze\":{},\"copy\":{},\"send\":{},\"sync\":{},\"span\":{},\"variants\":{}}}",
                         esc(&cx.path(did)),
                         esc(&format!("{:?}", tcx.def_kind(did))),
                         esc(if tcx.visibility(did).is_public() { "pub" } else { "restricted" }),
@@ -735,6 +748,8 @@ impl Callbacks for Cb {
                         match size { Some(s) => format!("{}", s), None => "null".into() },
                         o(freeze),
                         o(copy),
+                        o(send),
+                        o(sync),
                         cx.span(tcx.def_span(did)),
                         jlist(variants)
                     ));
